@@ -2,6 +2,7 @@ package main
 
 import (
 	"fmt"
+	"reflect"
 	"sort"
 	"strings"
 
@@ -39,7 +40,7 @@ func init() {
 		mk := func(name string, alpha []byte, keyLen, maxKeys int) *seqmc.Spec {
 			keys := allStrings(alpha, 1, keyLen)
 			queries := allStrings(alpha, 0, keyLen+1)
-			return &seqmc.Spec{Property: "C09", PureObservers: true, Component: name, KeyName: "Trie", Inits: []string{"empty"}, New: func(string) seqmc.Sys {
+			return &seqmc.Spec{Property: "C09", Component: name, KeyName: "Trie", Inits: []string{"empty"}, New: func(string) seqmc.Sys {
 				return &trieSys{t: trie.New[string, int](queue.New[string]()), model: map[string]int{}, keys: keys, queries: queries, maxKeys: maxKeys}
 			}}
 		}
@@ -239,5 +240,22 @@ func trieDump(t *trie.Trie[string, int]) string {
 }
 
 func (s *trieSys) Key() string {
-	return trieDump(s.t) + "|" + fmt.Sprint(s.model)
+	// the complete private state, field by field (the node graph, the counter and whatever else a
+	// change may add, e.g. a lookup hint): queries are allowed to change it -- the engine then makes
+	// the query suite an operation of the alphabet -- but they must keep answering correctly. Of the
+	// attached result queue only the number of leftover elements is part of the key: whether its
+	// drained backing slice is nil or empty differs between a fresh and a used trie and changes nothing.
+	var sb strings.Builder
+	tv := reflect.ValueOf(s.t).Elem()
+	for i := 0; i < tv.NumField(); i++ {
+		name := tv.Type().Field(i).Name
+		if name == "q" {
+			if q, ok := seqmc.Get(s.t, "q").Interface().(trie.Queuer[string]); ok && q != nil {
+				fmt.Fprintf(&sb, "q:%d;", q.Size())
+			}
+			continue
+		}
+		fmt.Fprintf(&sb, "%s:%s;", name, seqmc.DumpValue(seqmc.Get(s.t, name)))
+	}
+	return sb.String() + "|" + fmt.Sprint(s.model)
 }
